@@ -259,4 +259,237 @@ theorem scenarioPostprocessors_eq : Gen.GrpcGun.scenarioPostprocessors =
 theorem assertStatusCheck_eq : Gen.GrpcGun.assertStatusCheck =
     "if $recv.StatusCode != 0 && $recv.StatusCode != $1 { return an error=true }" := rfl
 
+
+/-! ### round 4: code the anchored files depend on (`gen/area_grpcgun_r4.go`)
+
+Canonical statements: receiver `$recv`, parameters `$0…`, other locals `$<type><rank>`, message strings of errors / logs masked. -/
+
+/-- an empty ammo list is an error; both counters start at 0 (`scenRun … 0`) -/
+theorem scenProviderPrologue_eq : Gen.GrpcGun.scenProviderPrologue =
+    ["$uint0 := uint(len($recv.ammos))", "if $uint0 == 0 { return decoders.ErrNoAmmo }", "$uint1 := uint(0)", "$uint2 := uint(0)"] := rfl
+
+/-- the `[next]` iterator: 0 on first use of a segment, one more on every later use, under a mutex (`drawUser`: `drawn`, `drawn + 1`) -/
+theorem nextIteratorBody_eq : Gen.GrpcGun.nextIteratorBody =
+    ["$recv.mx.Lock()", "defer $recv.mx.Unlock()", "$*atomic.Uint640, $bool0 := $recv.gs[$0]", "if !$bool0 { $recv.gs[$0] = &atomic.Uint64{} return 0 }", "$uint640 := $*atomic.Uint640.Add(1)", "return int($uint640)"] := rfl
+
+/-- the gcd of all weights: `GCD(GCDM(all but the last), GCD(last two))` (`Model.goGcdm`, `C20_weights`) -/
+theorem gcdmBody_eq : Gen.GrpcGun.gcdmBody =
+    ["$int0 := len($0)", "if $int0 < 2 { return 0 }", "$int640 := GCD($0[$int0-2], $0[$int0-1])", "if $int0 == 2 { return $int640 }", "return GCD(GCDM($0[:$int0-1]...), $int640)"] := rfl
+
+/-- `SpreadNames` around its loops: a single scenario once; otherwise the divisor is `GCDM` of the weights (the loops: `spreadWeight_eq`, `spreadCount_eq`; `Model.ammoList`) -/
+theorem spreadNamesBody_eq : Gen.GrpcGun.spreadNamesBody =
+    ["if len($0) == 0 { return nil, 0 }", "if len($0) == 1 { return map[string]int{$0[0].Name: 1}, 1 }", "$map[string]config.ScenarioConfig0 := map[string]ScenarioConfig{}", "$[]int640 := make([]int64, len($0))", "$int640 := math.GCDM($[]int640...)", "$map[string]int0 := make(map[string]int)", "$int1 := 0", "return $map[string]int0, $int1"] := rfl
+
+/-- … and that often it is appended to the ammo list, in definition order -/
+theorem scenarioSpreadLoop_eq : Gen.GrpcGun.scenarioSpreadLoop =
+    "for $int5 := 0; $int5 < $int4; $int5++ { $[]*scenario.Scenario0 = append($[]*scenario.Scenario0, $*scenario.Scenario0) }" := rfl
+
+/-- a service the reflection API lists but cannot resolve is skipped, the rest of the table is still built (`ghost=1` inputs); the key of the table is the fully qualified method name (`lookupMethod`) -/
+theorem reflectServiceLoop_eq : Gen.GrpcGun.reflectServiceLoop =
+    ["range $[]string0", "$*desc.ServiceDescriptor0, $error1 := $*grpcreflect.Client0.ResolveService($string0)", "if $error1 != nil { if grpcreflect.IsElementNotFoundError($error1) { continue } return nil, fmt.Errorf(\"…\", $string0, $error1) }", "$[]*desc.MethodDescriptor0 := $*desc.ServiceDescriptor0.GetMethods()", "for $int1, $*desc.MethodDescriptor0 := range $[]*desc.MethodDescriptor0 { $map[string]desc.MethodDescriptor0[$*desc.MethodDescriptor0.GetFullyQualifiedName()] = *$*desc.MethodDescriptor0 }"] := rfl
+
+/-- `NewGun` stores the configuration unchanged (in particular `Timeout` stays what was configured) -/
+theorem newGunBody_eq : Gen.GrpcGun.newGunBody =
+    ["$*zap.Logger0 := answlog.Init($0.AnswLog.Path, $0.AnswLog.Enabled)", "return &Gun{Conf: $0, AnswLog: $*zap.Logger0}"] := rfl
+
+/-- of two preprocessors defining one variable the FIRST wins (`uu` inputs: `Drv.parsePre`) -/
+theorem mergeMapsBody_eq : Gen.GrpcGun.mergeMapsBody =
+    ["for $string0, $any0 := range $1 { if $any1, $bool0 := $0[$string0]; !$bool0 { $0[$string0] = $any0 } }", "return $0"] := rfl
+
+/-- `source.path` replaces `file` before the provider (and its file name) is made (`src=1` inputs) -/
+theorem jsonNewProvider_eq : Gen.GrpcGun.jsonNewProvider =
+    ["var $grpcjson.Provider0 Provider", "if $1.Source.Path != \"\" { $1.File = $1.Source.Path }", "$grpcjson.Provider0 = Provider{ Provider: ammo.NewProvider($0, $1.File, $grpcjson.Provider0.start), Config: $1, }", "return &$grpcjson.Provider0"] := rfl
+
+/-- grpc/json is registered WITHOUT a default configuration: `passes` not written = 0 = unlimited (`pas=d` inputs, `C20_feed_unlimited`); both guns with their `DefaultGunConfig` -/
+theorem grpcRegistrations_eq : Gen.GrpcGun.grpcRegistrations =
+    [("Provider grpc/json", ""), ("Gun grpc", "grpc.DefaultGunConfig"), ("Gun grpc/scenario", "scenario.DefaultGunConfig")] := rfl
+
+
+/-! ### round 4: arithmetic / control re-extracted as Lean FUNCTIONS (`gen/area_grpcgun_sym.go`) equals the model, for all inputs -/
+
+theorem scenProvider_stops_any (len passes limit n : Nat) :
+    (Gen.GrpcGun.scenProviderStops passes limit len n).any (·.1) =
+      ((passes != 0 && decide (n / len ≥ passes)) || (limit != 0 && decide (n ≥ limit))) := by
+  have hd : Int.tdiv (n : Int) (len : Int) = ((n / len : Nat) : Int) := rfl
+  have e1 : decide ((passes : Int) ≠ 0 ∧ Int.tdiv (n : Int) (len : Int) ≥ (passes : Int)) =
+      (passes != 0 && decide (n / len ≥ passes)) := by
+    rw [hd]
+    by_cases h : passes ≠ 0 ∧ n / len ≥ passes
+    · have hi : ((passes : Int) ≠ 0 ∧ ((n / len : Nat) : Int) ≥ (passes : Int)) := ⟨by omega, by omega⟩
+      rw [decide_eq_true hi]
+      simp [h.1, h.2]
+    · have hi : ¬ ((passes : Int) ≠ 0 ∧ ((n / len : Nat) : Int) ≥ (passes : Int)) := by
+        intro hh; exact h ⟨by omega, by omega⟩
+      rw [decide_eq_false hi]
+      symm; simpa using h
+  have e2 : decide ((limit : Int) ≠ 0 ∧ (n : Int) ≥ (limit : Int)) = (limit != 0 && decide (n ≥ limit)) := by
+    by_cases h : limit ≠ 0 ∧ n ≥ limit
+    · have hi : ((limit : Int) ≠ 0 ∧ (n : Int) ≥ (limit : Int)) := ⟨by omega, by omega⟩
+      rw [decide_eq_true hi]
+      simp [h.1, h.2]
+    · have hi : ¬ ((limit : Int) ≠ 0 ∧ (n : Int) ≥ (limit : Int)) := by
+        intro hh; exact h ⟨by omega, by omega⟩
+      rw [decide_eq_false hi]
+      symm; simpa using h
+  unfold Gen.GrpcGun.scenProviderStops
+  simp only [List.any_cons, List.any_nil, Bool.or_false]
+  rw [e1, e2]
+
+theorem scenProvider_index_eq (len passes limit n : Nat) :
+    (Gen.GrpcGun.scenProviderIndex passes limit len n).toNat = n % len := by
+  have hm : Int.tmod (n : Int) (len : Int) = ((n % len : Nat) : Int) := rfl
+  unfold Gen.GrpcGun.scenProviderIndex
+  rw [hm]
+  exact Int.toNat_natCast _
+
+theorem scenProvider_count_eq (len passes limit n : Nat) :
+    (Gen.GrpcGun.scenProviderCount passes limit len n).toNat = n + 1 := by
+  unfold Gen.GrpcGun.scenProviderCount
+  omega
+
+/-- one iteration of the generic scenario provider's loop as the source computes it IS one step of `Model.scenRun`: stop
+when one of the source's checks fires, otherwise hand over ammo number `scenProviderIndex` and go on with the counter
+`scenProviderCount` -/
+theorem scenProvider_step_eq (len passes limit fuel n : Nat) :
+    scenRun len passes limit (fuel + 1) n =
+      (if (Gen.GrpcGun.scenProviderStops passes limit len n).any (·.1) then []
+       else (Gen.GrpcGun.scenProviderIndex passes limit len n).toNat ::
+          scenRun len passes limit fuel (Gen.GrpcGun.scenProviderCount passes limit len n).toNat) := by
+  rw [scenRun, scenProvider_stops_any, scenProvider_index_eq, scenProvider_count_eq]
+  by_cases hA : (passes != 0 && decide (n / len ≥ passes)) = true
+  · simp only [hA, Bool.true_or, if_true]
+  · have hA' : (passes != 0 && decide (n / len ≥ passes)) = false := by simpa using hA
+    simp only [hA', Bool.false_or, Bool.false_eq_true, if_false]
+
+/-- the checks are the passes check, then the limit check -/
+theorem scenProvider_stops_eq (passes limit len n : Int) :
+    (Gen.GrpcGun.scenProviderStops passes limit len n).map (·.2) = ["ErrPassLimit", "ErrAmmoLimit"] := rfl
+
+/-- `calcIndex` on a written index `i ≥ 0` is the model's `fixedIndex … (.fixed i)` … -/
+theorem calcIndexWritten_fixed (len i : Nat) (_h : 0 < len) :
+    Gen.GrpcGun.calcIndexWritten (i : Int) (len : Int) = ((fixedIndex len (.fixed i) : Nat) : Int) := by
+  have hm : Int.tmod (i : Int) (len : Int) = ((i % len : Nat) : Int) := rfl
+  have hf : fixedIndex len (.fixed i) = i % len := rfl
+  unfold Gen.GrpcGun.calcIndexWritten
+  rw [hm, hf]
+  by_cases hlt : i < len
+  · have hc : ((i : Int) ≥ 0 ∧ (i : Int) < (len : Int)) := ⟨by omega, by omega⟩
+    rw [if_pos hc, Nat.mod_eq_of_lt hlt]
+  · have hc : ¬ ((i : Int) ≥ 0 ∧ (i : Int) < (len : Int)) := by intro h; omega
+    have hn : ¬ (((i % len : Nat) : Int) < 0) := by omega
+    rw [if_neg hc, if_neg hn]
+
+/-- … and on a written negative index `-i` the model's `fixedIndex … (.neg i)` -/
+theorem calcIndexWritten_neg (len i : Nat) (h : 0 < len) :
+    Gen.GrpcGun.calcIndexWritten (-(i : Int)) (len : Int) = ((fixedIndex len (.neg i) : Nat) : Int) := by
+  have hm : Int.tmod (-(i : Int)) (len : Int) = -((i % len : Nat) : Int) := by
+    rw [Int.neg_tmod]; rfl
+  have hf : fixedIndex len (.neg i) = (len - i % len) % len := rfl
+  have hlt : i % len < len := Nat.mod_lt _ h
+  unfold Gen.GrpcGun.calcIndexWritten
+  rw [hm, hf]
+  by_cases hz : i = 0
+  · subst hz
+    have hc : ((-((0 : Nat) : Int)) ≥ 0 ∧ (-((0 : Nat) : Int)) < (len : Int)) := ⟨by omega, by omega⟩
+    rw [if_pos hc]
+    simp
+  · have hneg : ¬ ((-(i : Int)) ≥ 0 ∧ (-(i : Int)) < (len : Int)) := by intro hh; omega
+    rw [if_neg hneg]
+    by_cases hmz : i % len = 0
+    · have h1 : ¬ ((-((i % len : Nat) : Int)) < 0) := by omega
+      rw [if_neg h1, hmz]
+      simp
+    · have h1 : (-((i % len : Nat) : Int)) < 0 := by omega
+      have h2 : (len - i % len) % len = len - i % len := Nat.mod_eq_of_lt (by omega)
+      rw [if_pos h1, h2]
+      omega
+
+theorem calcIndexLast_eq (len : Nat) (h : 0 < len) :
+    Gen.GrpcGun.calcIndexLast (len : Int) = ((fixedIndex len .last : Nat) : Int) := by
+  have hf : fixedIndex len .last = len - 1 := rfl
+  unfold Gen.GrpcGun.calcIndexLast
+  rw [hf]
+  omega
+
+/-- `[next]`: the number the iterator returned, wrapped round the list (`drawUser`: `drawn % length`) -/
+theorem calcIndexNext_eq (drawn len : Nat) (_h : 0 < len) :
+    Gen.GrpcGun.calcIndexNext (drawn : Int) (len : Int) = ((drawn % len : Nat) : Int) := by
+  have hm : Int.tmod (drawn : Int) (len : Int) = ((drawn % len : Nat) : Int) := rfl
+  unfold Gen.GrpcGun.calcIndexNext
+  rw [hm]
+  by_cases hge : drawn ≥ len
+  · have hc : (drawn : Int) ≥ (len : Int) := by omega
+    rw [if_pos hc]
+  · have hc : ¬ ((drawn : Int) ≥ (len : Int)) := by omega
+    rw [if_neg hc, Nat.mod_eq_of_lt (by omega : drawn < len)]
+
+theorem gcdLoopCond_eq (a b : Nat) : Gen.GrpcGun.gcdLoopCond a b = (decide (a > 0) && decide (b > 0)) := by
+  unfold Gen.GrpcGun.gcdLoopCond
+  by_cases h : a > 0 ∧ b > 0
+  · have hi : ((a : Int) > 0 ∧ (b : Int) > 0) := ⟨by omega, by omega⟩
+    rw [decide_eq_true hi]; simp [h.1, h.2]
+  · have hi : ¬ ((a : Int) > 0 ∧ (b : Int) > 0) := by intro hh; exact h ⟨by omega, by omega⟩
+    rw [decide_eq_false hi]; symm; simpa using h
+
+theorem gcdLoopStep_eq (a b : Nat) :
+    (Gen.GrpcGun.gcdLoopStep a b).1.toNat = (if a ≥ b then a % b else a) ∧
+    (Gen.GrpcGun.gcdLoopStep a b).2.toNat = (if a ≥ b then b else b % a) := by
+  have hm1 : Int.tmod (a : Int) (b : Int) = ((a % b : Nat) : Int) := rfl
+  have hm2 : Int.tmod (b : Int) (a : Int) = ((b % a : Nat) : Int) := rfl
+  unfold Gen.GrpcGun.gcdLoopStep
+  rw [hm1, hm2]
+  by_cases hab : a ≥ b
+  · have hc : (a : Int) ≥ (b : Int) := by omega
+    simp only [if_pos hc, if_pos hab]
+    exact ⟨Int.toNat_natCast _, Int.toNat_natCast _⟩
+  · have hc : ¬ ((a : Int) ≥ (b : Int)) := by omega
+    simp only [if_neg hc, if_neg hab]
+    exact ⟨Int.toNat_natCast _, Int.toNat_natCast _⟩
+
+theorem gcdResult_eq (a b : Nat) : (Gen.GrpcGun.gcdResult a b).toNat = (if a > b then a else b) := by
+  unfold Gen.GrpcGun.gcdResult
+  by_cases hgt : a > b
+  · have hc : (a : Int) > (b : Int) := by omega
+    rw [if_pos hc, if_pos hgt]; exact Int.toNat_natCast _
+  · have hc : ¬ ((a : Int) > (b : Int)) := by omega
+    rw [if_neg hc, if_neg hgt]; exact Int.toNat_natCast _
+
+/-- `math.GCD`: the model's `goGcdLoop` is the source's loop — condition, step and result -/
+theorem gcdLoop_step_eq (fuel a b : Nat) :
+    goGcdLoop (fuel + 1) a b =
+      (if Gen.GrpcGun.gcdLoopCond a b then
+         goGcdLoop fuel (Gen.GrpcGun.gcdLoopStep a b).1.toNat (Gen.GrpcGun.gcdLoopStep a b).2.toNat
+       else (Gen.GrpcGun.gcdResult a b).toNat) := by
+  rw [goGcdLoop, gcdLoopCond_eq, (gcdLoopStep_eq a b).1, (gcdLoopStep_eq a b).2, gcdResult_eq]
+  by_cases hc : (decide (a > 0) && decide (b > 0)) = true
+  · simp only [hc, if_true]
+    by_cases hab : a ≥ b
+    · simp only [hab, if_true]
+    · simp only [hab, if_false]
+  · have hc' : (decide (a > 0) && decide (b > 0)) = false := by simpa using hc
+    simp only [hc', Bool.false_eq_true, if_false]
+
+theorem gcdLoop_base_eq (a b : Nat) : goGcdLoop 0 a b = (Gen.GrpcGun.gcdResult a b).toNat := by
+  rw [goGcdLoop, gcdResult_eq]
+
+/-- `SpreadNames`: a weight 0 counts as 1 — both in the gcd AND in the division — and a scenario is listed
+`weight / gcd` times (`Model.ammoList`) -/
+theorem spreadWeight_eq (w : Nat) :
+    Gen.GrpcGun.spreadWeightForGcd (w : Int) = (((if w == 0 then 1 else w) : Nat) : Int) ∧
+    Gen.GrpcGun.spreadWeightKept (w : Int) = (((if w == 0 then 1 else w) : Nat) : Int) := by
+  unfold Gen.GrpcGun.spreadWeightForGcd Gen.GrpcGun.spreadWeightKept
+  by_cases h : w = 0
+  · subst h; simp
+  · have : ¬ ((w : Int) = 0) := by omega
+    simp [h, this]
+
+theorem spreadCount_eq (w d : Nat) : Gen.GrpcGun.spreadCount (w : Int) (d : Int) = ((w / d : Nat) : Int) := rfl
+
+/-- the DIAL timeout is `dial_options.timeout`, one second when that is not configured: a function of the dial option
+alone (the request timeout `Conf.Timeout` is `gunTimeoutNs`) -/
+theorem dialTimeout_eq (conf : Int) :
+    Gen.GrpcGun.dialTimeoutNs conf = (if conf ≠ 0 then conf else 1000000000) := by
+  unfold Gen.GrpcGun.dialTimeoutNs
+  by_cases h : conf = 0 <;> simp [h]
+
 end Pandora.Bridge.C20
